@@ -225,7 +225,9 @@ def check(gen, run):
         rec = next(r for r in run.sends if r["serial"] == s)
         if s not in acc_set:
             v("rejected-message-transmitted", serial=s, outcome=rec["outcome"])
-        if t >= rec["call_t"] + rec["policy"][1] - 1e-12:
+        # (exactly the client's own arithmetic: expiry = time of the call + lifetime, compared
+        # as floats; an instant one ulp before the expiry is before the expiry)
+        if t >= rec["call_t"] + rec["policy"][1]:
             v("message-transmitted-after-expiry", serial=s, at=t,
               expiry=rec["call_t"] + rec["policy"][1])
     # order: transmitted sequence must be a subsequence-preserving image of acceptance order
